@@ -27,3 +27,27 @@ package reclaim
 //@   ensures [onlyEligibleVictims] forall j *podgroup_info.PodGroupInfo :: utils.pushed(j) && !old(utils.pushed(j)) ==> reclaimVictim(ssn, reclaimer, j)
 //@   ensures [onlySessionJobs] forall j *podgroup_info.PodGroupInfo :: utils.pushed(j) && !old(utils.pushed(j)) ==> utils.memberOf(ssn.ClusterInfo.PodGroupInfos, j)
 //@ end
+
+// ---- exec2: the per-reclaimer attempt and the Execute loop (C07 / C05 / C06 / C03 / C10) ------------------
+//@ import solvers "github.com/NVIDIA/KAI-scheduler/pkg/scheduler/actions/common/solvers"
+
+// C07: "Reclaim never reduces the allocation of a queue ... that is within its deserved quota in every resource:
+// resources are taken only from queues above their deserved quota or above their fair share" - "must hold for the
+// victims finally committed". The reclaim scenario validator (ssn.ReclaimScenarioValidatorFn -> proportion's
+// reclaimable strategies) does not read the live queue usage but the copy that the job-solution-start hooks
+// take (proportion.OnJobSolutionStartFn: jobSimulationQueues := clone of the live queues, under contract in
+// plugins/proportion). The copy must therefore be taken for EVERY reclaimer, after the previous reclaimer's
+// commit: the solver run of a reclaimer starts from a FRESH snapshot - precondition [validationSnapshotFresh] of
+// solvers.(*JobSolver).Solve for the reclaim action (framework.snapshotFresh: the hooks ran after the last
+// decision was emitted to the cache), proved HERE at the call `solver.Solve(ssn, reclaimer)`. Nothing can be
+// assumed about the snapshot at entry: the previous iteration of Execute may have committed.
+// C03: a reclaimer is reported as served only if its gang is satisfied in the state the returned statement describes.
+//@ func (*reclaimAction).attemptToReclaimForSpecificJob
+//@   props C07 C05 C06 C03 C10
+//@   usestable Session.ClusterInfo
+//@   requires ssn != nil && ssn.ClusterInfo != nil && reclaimer != nil
+//@   requires [queueKnown] ssn.ClusterInfo.Queues[reclaimer.Queue] != nil
+//@   modifies *
+//@   ensures [successMeansGangSatisfied] result0 ==> solvers.gangSat(reclaimer)
+//@ end
+// ---- end exec2 ----
